@@ -1,7 +1,6 @@
 CONSTANTS
-  MaxToks = 3
-  Big = TRUE
-  NRand = 60000
-  Seed = 1
+  MaxToks = 2
+  Big = FALSE
+  NRand = 4000
 SPECIFICATION Spec
 INVARIANTS WF ImplIsRef NoSpoofInv RightMostInv ResultShapeInv
